@@ -7,6 +7,7 @@ import (
 
 	"github.com/mmcloughlin/avo/ir"
 	"github.com/mmcloughlin/avo/operand"
+	"github.com/mmcloughlin/avo/pass"
 	"github.com/mmcloughlin/avo/reg"
 	"github.com/mmcloughlin/avo/x86"
 )
@@ -155,9 +156,45 @@ func c04(c *Ctx) {
 		o.ExpectEmptyK("IO.v", "R_reads_violation", "violation", "an instruction does not report a register of an input operand (or an address register of a memory output) as read, or a register output as written", "reads")
 	}
 	o.Plan.Stats["reads_writes_instances"] = len(ioRows)
+	zeroExtendSweep(c)
 	c04hw(c, d, ctors, names, opcIndexOf)
 	o.Stage(files...)
 	o.Plan.Rule = "all rows of the form table (x86/zoptab.go dumped through the verif overlay), exhaustively; a sample of rows is written out as cases"
 	o.Plan.Stats["forms"] = n
 	o.Plan.Stats["exhaustive_values"] = true
+}
+
+// zeroExtendSweep: the pass that turns a declared 32-bit general-purpose write into a write of the whole
+// 64-bit register ("32-bit writes count as 64-bit"), over many more distinct registers than a small function
+// has, each visited more than once: the output must be the 64-bit view of the very same register.
+func zeroExtendSweep(c *Ctx) {
+	o := c.Out
+	coll := reg.NewCollection()
+	var regs []reg.GP
+	for j := 0; j < 150; j++ {
+		regs = append(regs, coll.GP64())
+	}
+	regs = append(regs, reg.RAX, reg.RCX, reg.R8, reg.R15, reg.RBP, reg.RSI)
+	bad := 0
+	for round := 0; round < 3; round++ {
+		for j, r := range regs {
+			i, err := x86.MOVL(operand.U32(uint32(j)), r.As32())
+			if err != nil {
+				continue
+			}
+			if err := pass.ZeroExtend32BitOutputs(i); err != nil {
+				continue
+			}
+			okOut := len(i.Outputs) == 1
+			if okOut {
+				out, isR := i.Outputs[0].(reg.Register)
+				okOut = isR && out.ID() == r.As64().ID() && out.Size() == 8
+			}
+			if !okOut && bad < 5 {
+				bad++
+				o.Plan.GoViolations = append(o.Plan.GoViolations, GoViolation{Key: "zeroextend:wrong-register", Desc: fmt.Sprintf("after ZeroExtend32BitOutputs, `MOVL $%d, %s` (register %d of 156, visit %d) declares the outputs %v instead of the 64-bit view of its own destination", j, r.As32().Asm(), j, round+1, i.Outputs), Replay: map[string]any{"register_number": j, "visit": round + 1}})
+			}
+		}
+	}
+	o.AddCase(Case{Key: "zeroextend:sweep", Desc: "ZeroExtend32BitOutputs over 156 distinct 32-bit destinations, three visits each", Input: map[string]any{"registers": len(regs)}, Nontrivial: true})
 }
